@@ -56,6 +56,12 @@ func (x *RoundRobin) Set(nodes ...*Node) {
 func (x *RoundRobin) Next() *Node {
 	x.locker.Lock()
 	defer x.locker.Unlock()
-	n := atomic.AddUint32(&x.next, 1)
-	return x.nodes[(int(n)-1)%len(x.nodes)]
+	// next always holds the position of the node to hand out, reduced modulo the
+	// pool size: it never grows, so it never wraps around. An ever-increasing
+	// uint32 counter reaches 0 after 2^32 calls, where (int(n)-1) is -1 (index
+	// out of range), and breaks the cycle whenever the pool size does not
+	// divide 2^32.
+	idx := atomic.LoadUint32(&x.next) % uint32(len(x.nodes))
+	atomic.StoreUint32(&x.next, idx+1)
+	return x.nodes[idx]
 }
